@@ -160,9 +160,27 @@ def gen_native():
         raise GenError("coerce_values_to_single_type: initial dest_type not recognised")
     dest0 = int(m.group(1))
 
+    # what a copied list remembers as its origin names (ink_list.rs)
+    il = strip_comments(vlib.repo_file("runtime/src/ink_list.rs"))
+    fol, swr = ws(fn_body(il, "from_other_list")), ws(fn_body(il, "list_with_sub_range"))
+    raw = ("ink_list.initial_origin_names=other_list.initial_origin_names.clone();" in fol,
+           "sub_list.set_initial_origin_names(self.initial_origin_names.borrow().clone());" in swr)
+    eff = ("ink_list.initial_origin_names=RefCell::new(other_list.known_origin_names());" in fol,
+           "sub_list.set_initial_origin_names(self.known_origin_names());" in swr)
+    if raw == (True, True) and eff == (False, False):
+        origin_copy = "CopyRaw"
+    elif eff == (True, True) and raw == (False, False):
+        kb = ws(fn_body(il, "known_origin_names"))
+        if "ifself.items.is_empty(){returnself.initial_origin_names.borrow().clone();}" not in kb \
+                or "filter_map(|k|k.get_origin_name().cloned())" not in kb:
+            raise GenError("known_origin_names: not recognised")
+        origin_copy = "CopyEffective"
+    else:
+        raise GenError("ink_list.rs: how copies remember origin names is not recognised")
+
     L = ["(* GENERATED by tools/gen_native.py from runtime/src/native_function_call.rs, value_type.rs,",
          "   value.rs, story/control_logic.rs, story/mod.rs — do not edit *)",
-         "From Ink.Data Require Import Types IntSem.", ""]
+         "From Ink.Data Require Import Types IntSem InkList.", ""]
     L.append("Definition nop_name (op : nop) : text :=\n  match op with")
     for v in ops:
         L.append(f"  | {NOP[v]} => {coq_text(names[v])}")
@@ -185,8 +203,9 @@ def gen_native():
     L.append("Definition valuetype_variants : list text := [" + "; ".join(coq_text(v) for v in vt) + "].")
     L.append("Definition cast_consts : list (text * N) := [" + "; ".join(f"({coq_text(n)}, {v}%N)" for n, v in casts) + "].")
     L.append(f"Definition coerce_initial_dest : N := {dest0}%N.")
+    L.append(f"Definition origin_copy_now : origin_copy := {origin_copy}.")
     out = "\n".join(L) + "\n"
-    facts = {"native.ops": len(ops), "native.int_sem": sem, "native.valuetype": vt}
+    facts = {"native.ops": len(ops), "native.int_sem": sem, "native.valuetype": vt, "native.origin_copy": origin_copy}
     return write_if_changed("theories/Gen/NativeGen.v", out), facts
 
 
